@@ -6,7 +6,7 @@ verus! {
 
 #[verifier::external_body]
 pub struct BitField { inner: Box<u8> }
-impl View for BitField { type V = Set<u64>; uninterp spec fn view(&self) -> Set<u64>; }
+impl View for BitField { type V = vstd::set::Set<u64>; uninterp spec fn view(&self) -> vstd::set::Set<u64>; }
 
 impl Clone for BitField {
     #[verifier::external_body]
@@ -14,9 +14,9 @@ impl Clone for BitField {
 }
 impl BitField {
     #[verifier::external_body]
-    pub fn new() -> (r: BitField) ensures r@ == Set::<u64>::empty() { unimplemented!() }
+    pub fn new() -> (r: BitField) ensures r@ == vstd::set::Set::<u64>::empty() { unimplemented!() }
     #[verifier::external_body]
-    pub fn is_empty(&self) -> (r: bool) ensures r == (self@ =~= Set::<u64>::empty()) { unimplemented!() }
+    pub fn is_empty(&self) -> (r: bool) ensures r == (self@ =~= vstd::set::Set::<u64>::empty()) { unimplemented!() }
     #[verifier::external_body]
     pub fn len(&self) -> (r: u64) ensures r as nat == self@.len() { unimplemented!() }
     #[verifier::external_body]
@@ -27,7 +27,7 @@ impl BitField {
     pub fn unset(&mut self, bit: u64) ensures final(self)@ == old(self)@.remove(bit) { unimplemented!() }
     #[verifier::external_body]
     pub fn contains_any(&self, other: &BitField) -> (r: bool)
-        ensures r == !(self@.intersect(other@) =~= Set::<u64>::empty()) { unimplemented!() }
+        ensures r == !(self@.intersect(other@) =~= vstd::set::Set::<u64>::empty()) { unimplemented!() }
     #[verifier::external_body]
     pub fn contains_all(&self, other: &BitField) -> (r: bool)
         ensures r == other@.subset_of(self@) { unimplemented!() }
